@@ -1,7 +1,7 @@
 SPECIFICATION Spec
 CONSTANTS
   NChar = 2
-  MaxLen = 4
+  MaxLen = 3
   MaxL = 2
   MaxR = 1
   QVal = 3
